@@ -483,6 +483,7 @@ fn run_task(shared: Arc<Shared>, id: usize) {
             }
             Err(_) => (3, Some(Viol { class: "panic", detail: last_panic() })),
         };
+        crate::guard::PROGRESS.fetch_add(1, Ordering::Relaxed);
         shared.digests.lock().unwrap()[id][i] = digest;
         sched.record(0x7000_0000_0000_0000 ^ ((id as u64) << 40) ^ ((i as u64) << 20) ^ (digest & 0xFFFFF));
         if let Some(v) = v {
